@@ -275,6 +275,113 @@ def gen(repo):
         raise ExtractError("save_config_hot: shape not recognised")
     out.append("(* save_config: the config goes through the hot/cold backend (cold only), then to the hot backend with is_hot *)")
     out.append("Definition save_config_order : list side := [Cold; Hot].")
+    # ------------------------------------------------------------------ warm-up call sites
+    TODO = ["Undecided", "Keep", "Repack", "MarkDelete", "KeepMarked", "KeepMarkedAndCorrect", "Recover", "Delete"]
+
+    def phases(fn, body, warm_re, sets, read_res):
+        """Order of the warm_up_wait call and the first read in a command body; which set expression is warmed."""
+        t = " ".join(body.split())
+        ws = [(m.start(), m.group(1)) for m in re.finditer(r"\bwarm_up_wait\s*\((.*?)\)\s*\?\s*;", t)]
+        rd = [m.start() for rr in read_res for m in re.finditer(rr, t)]
+        if not rd:
+            raise ExtractError("%s: the read of the packs is not recognised" % fn)
+        ev = [(p, "PhWarm", a) for p, a in ws] + [(min(rd), "PhRead", None)]
+        ev.sort()
+        wset = "WsNone"
+        for p, k, a in ev:
+            if k == "PhWarm":
+                a = re.sub(r"\s", "", a)
+                hit = [v for (k2, v) in sets if re.sub(r"\s", "", k2) == a]
+                if not hit:
+                    raise ExtractError("%s: warm_up_wait is called with an unrecognised set: %s" % (fn, a))
+                wset = hit[0]
+        return [k for _, k, _ in ev], wset
+
+    out.append("")
+    out.append("(* warm-up call sites: order of warm_up_wait and the pack reads, set handed to warm_up_wait *)")
+    rs = read(repo, "crates/core/src/commands/restore.rs")
+    ph, ws = phases("restore_repository", fn_body(rs, "restore_repository"), None,
+                    [("file_infos.to_packs().into_iter()", "WsToPacks")], [r"\brestore_contents\s*\("])
+    out.append("Definition restore_phases : list phase := [%s]." % "; ".join(ph))
+    out.append("Definition restore_warm_set : warm_set := %s." % ws)
+    meta["restore_phases"] = ph
+    rc = " ".join(fn_body(rs, "restore_contents").split())
+    if not re.search(r"be\.read_partial\(FileType::Pack, &pack_id, false, offset, length\)", rc):
+        raise ExtractError("restore_contents: read_partial(FileType::Pack, &pack_id, false, ..) not recognised")
+    pr = read(repo, "crates/core/src/commands/prune.rs")
+    pb = fn_body(pr, "prune_repository")
+    ph, ws = phases("prune_repository", pb, None, [("prune_plan.repack_packs().into_iter()", "WsRepackPacks")],
+                    [r"\brepacker\.copy_fast\s*\(", r"\brepacker\.copy\s*\("])
+    out.append("Definition prune_phases : list phase := [%s]." % "; ".join(ph))
+    out.append("Definition prune_warm_set : warm_set := %s." % ws)
+    meta["prune_phases"] = ph
+    t = " ".join(pb.split())
+    if not re.search(r"repack_packs \.into_par_iter\(\) \.try_for_each\(\|pack\|", t) or not re.search(r"CopyPackBlobs \{ pack_id: pack\.id, locations, \}", t):
+        raise ExtractError("prune_repository: the repack loop over `repack_packs` building CopyPackBlobs { pack_id: pack.id, .. } is not recognised")
+    # arms of the to_do match that hand the pack to the repack loop
+    push = set()
+    arms = [(m.start(), re.findall(r"PackToDo::(\w+)", m.group(1))) for m in re.finditer(r"((?:PackToDo::\w+\s*\|?\s*)+)=>", t)]
+    for m in re.finditer(r"\brepack_packs\.push\(", t):
+        prev = [a for a in arms if a[0] < m.start()]
+        if not prev:
+            raise ExtractError("prune_repository: repack_packs.push outside a PackToDo arm")
+        push.update(prev[-1][1])
+    if not push or not set(x for _, ns in arms for x in ns) <= set(TODO):
+        raise ExtractError("prune_repository: PackToDo arms not recognised")
+    out.append("(* prune_repository: decisions whose packs are handed to the repack loop (and read) *)")
+    out.append("Definition exec_reads (t : todo) : bool :=\n  match t with %s end." % " ".join("| %s => %s" % (x, "true" if x in push else "false") for x in TODO))
+    rp = " ".join(fn_body(pr, "repack_packs").split())
+    m = re.search(r"self\.index_files \.iter\(\) \.flat_map\(\|index\| &index\.packs\) \.filter\(\|pack\| pack\.to_do == PackToDo::(\w+)\) \.map\(\|pack\| pack\.id\) \.collect\(\)", rp)
+    if not m or m.group(1) not in TODO:
+        raise ExtractError("PrunePlan::repack_packs: filter not recognised")
+    out.append("(* PrunePlan::repack_packs: decisions whose packs are warmed up *)")
+    out.append("Definition plan_warms (t : todo) : bool :=\n  match t with %s end." % " ".join("| %s => %s" % (x, "true" if x == m.group(1) else "false") for x in TODO))
+    pk = read(repo, "crates/core/src/blob/packer.rs")
+    for fn in ("copy_fast", "copy"):
+        cb = " ".join(fn_body(pk, fn).split())
+        if not re.search(r"self\.be_src\.read_partial\( FileType::Pack, &pack_blobs\.pack_id, self\.blob_type\.is_cacheable\(\),", cb):
+            raise ExtractError("BlobCopier::%s: read_partial(FileType::Pack, &pack_blobs.pack_id, ..) not recognised" % fn)
+    ri = read(repo, "crates/core/src/commands/repair/index.rs")
+    for nm, fn in (("repair_index", "repair_index"), ("index_checked", "index_checked_from_collector")):
+        b = fn_body(ri, fn)
+        ph, ws = phases(fn, b, None, [("pack_read_header.iter().map(|(id, _, _)| *id)", "WsPackReadHeader")],
+                        [r"PackHeader::from_file\s*\(\s*be\s*,\s*id\s*,\s*size_hint\s*,\s*packsize\s*\)"])
+        t = " ".join(b.split())
+        if not re.search(r"let pack_read_header = checker\.into_pack_to_read\(\);", t) or not (
+                re.search(r"for \(id, size_hint, packsize\) in pack_read_header \{", t)
+                or re.search(r"pack_read_header \.into_iter\(\) \.map\(\|\(id, size_hint, packsize\)\|", t)):
+            raise ExtractError("%s: the header-reading loop over pack_read_header is not recognised" % fn)
+        out.append("Definition %s_phases : list phase := [%s]." % (nm, "; ".join(ph)))
+        out.append("Definition %s_warm_set : warm_set := %s." % (nm, ws))
+        meta[nm + "_phases"] = ph
+    pf = read(repo, "crates/core/src/repofile/packfile.rs")
+    ff = " ".join(fn_body(pf, "from_file").split())
+    rd = re.findall(r"be\.read_partial\(FileType::Pack, &id, (\w+),", ff)
+    if not rd or set(rd) != {"false"} or len(re.findall(r"\bread_partial\(", ff)) != len(rd) or re.search(r"\bread_full\(", ff):
+        raise ExtractError("PackHeader::from_file: reads other than be.read_partial(FileType::Pack, &id, false, ..)")
+    ipr = " ".join(fn_body(ri, "into_pack_to_read").split())
+    if not re.search(r"self\.packs_to_read \.extend\(self\.packs\.into_iter\(\)\.map\(\|\(id, size\)\| \(id, None, size\)\)\); self\.packs_to_read", ipr):
+        raise ExtractError("PackChecker::into_pack_to_read not recognised")
+    # repository.rs: what warm-up by access is wrapped around; backend/warm_up.rs: how it warms up
+    rr = " ".join(fn_body(read(repo, "crates/core/src/repository.rs"), "new_with_progress").split())
+    a = re.search(r"if opts\.warm_up \{ be = WarmUpAccessBackend::new_warm_up\(be\); \}", rr)
+    h = re.search(r"be = Arc::new\(HotColdBackend::new\(be, be_hot\.clone\(\)\)\);", rr)
+    c = re.search(r"let be_cold = be\.clone\(\);", rr)
+    if not (a and h and c and c.start() < min(a.start(), h.start())):
+        raise ExtractError("Repository::new_with_progress: WarmUpAccessBackend / HotColdBackend wrapping not recognised")
+    out.append("(* Repository::new_with_progress: RepositoryOptions::warm_up wraps the cold backend / the hot-cold backend *)")
+    out.append("Definition warm_up_access_wraps : wrap_target := %s." % ("WrapsCold" if a.start() < h.start() else "WrapsHotCold"))
+    wa = read(repo, "crates/core/src/backend/warm_up.rs")
+    i = wa.find("impl ReadBackend for WarmUpAccessBackend")
+    if i < 0:
+        raise ExtractError("impl ReadBackend for WarmUpAccessBackend not found")
+    blk = wa[wa.find("{", i) + 1:match_brace(wa, wa.find("{", i))]
+    wb = " ".join(fn_body(blk, "warm_up").split())
+    m = re.fullmatch(r"_ = self\.be\.read_partial\(tpe, id, (true|false), 0, 1\); Ok\(\(\)\)", wb)
+    if not m:
+        raise ExtractError("WarmUpAccessBackend::warm_up: probe read not recognised")
+    out.append("(* WarmUpAccessBackend::warm_up: read_partial(tpe, id, <flag>, 0, 1), result ignored *)")
+    out.append("Definition warm_access_probe_cacheable : bool := %s." % m.group(1))
     return "\n".join(out) + "\n", meta
 
 
